@@ -28,6 +28,7 @@ var generators = map[string]genFn{
 	"acklosttakeover": genAckLostTakeover,
 	"lease": genLease,
 	"restart": genRestart,
+	"mix": genMix,
 }
 
 type scenOut struct {
